@@ -278,11 +278,45 @@ func (p *Parser) StmtsSeq(r io.Reader) iter.Seq2[*Stmt, error] {
 	return func(yield func(*Stmt, error) bool) {
 		p.rune()
 		p.next()
-		p.stmts(yield)
+		// Statements whose here-document bodies have not been read yet,
+		// such as the first one in "cat <<EOF; foo", are held back
+		// until they are complete.
+		var held []*Stmt
+		stopped := false
+		flush := func() bool {
+			for _, s := range held {
+				if !yield(s, nil) {
+					stopped = true
+					return false
+				}
+			}
+			held = held[:0]
+			return true
+		}
+		p.stmts(func(s *Stmt, err error) bool {
+			if err == nil && len(p.heredocs) > p.buriedHdocs {
+				held = append(held, s)
+				return true
+			}
+			if !flush() {
+				return false
+			}
+			if !yield(s, err) {
+				stopped = true
+				return false
+			}
+			return true
+		})
+		if stopped {
+			return
+		}
 		if p.err == nil {
 			// EOF immediately after heredoc word so no newline to
 			// trigger the parsing error.
 			p.doHeredocs()
+		}
+		if !flush() {
+			return
 		}
 		if p.err != nil {
 			// Yield any final error from the parser.
